@@ -160,6 +160,30 @@ Theorem C16_source_tie_variance_history : forall (T : Type) (N : NumOps T), nofZ
   var_data_ c = o_data s.
 Proof. exact @var_code_window. Qed.
 
+(* no partial C++ operation is used outside its domain (`% windowSize_` with windowSize_ = W > 0, `data_[index_]` only
+   with index_ < data_.size()), after any history: the totalising conventions of StatsSem.v are never exercised *)
+Theorem C16_source_tie_accesses_defined : forall (T : Type) (N : NumOps T), nofZ N 1 = n_one N ->
+  (forall a b : T, nmul N a b = nmul N b a) ->
+  forall prec W (ops : list (oop T)), (0 < W)%nat -> (W <= 64)%nat ->
+  let mult := o_multiplier N prec in
+  ops_bounded N mult ops ->
+  let c := fold_left (src_avg_step N) ops (src_avg_ctor2 N prec (Z.of_nat W)) in
+  (avg_windowSize_ c = Z.of_nat W /\ 0 <= avg_index_ c < Z.of_nat W /\
+   vec_size (avg_data_ c) <= Z.of_nat W /\
+   (vec_size (avg_data_ c) = avg_windowSize_ c -> avg_index_ c < vec_size (avg_data_ c)))%Z.
+Proof. exact @avg_code_defined. Qed.
+
+Theorem C16_source_tie_variance_accesses_defined : forall (T : Type) (N : NumOps T), nofZ N 1 = n_one N ->
+  (forall a b : T, nmul N a b = nmul N b a) ->
+  forall prec W (ops : list (oop T)), (0 < W)%nat -> (W <= 64)%nat ->
+  let mult := o_multiplier N prec in
+  in_s32 mult -> ops_bounded N mult ops ->
+  let c := fold_left (src_var_step N) ops (src_var_ctor2 N prec (Z.of_nat W)) in
+  (var_windowSize_ c = Z.of_nat W /\ 0 <= var_index_ c < Z.of_nat W /\
+   vec_size (var_squaredData_ c) = vec_size (var_data_ c) /\ vec_size (var_data_ c) <= Z.of_nat W /\
+   (vec_size (var_data_ c) = var_windowSize_ c -> var_index_ c < vec_size (var_data_ c)))%Z.
+Proof. exact @var_code_defined. Qed.
+
 (* over the reals: the code's getAverage() is the mean of the last min(n,W) truncated samples ... *)
 Theorem C16_source_tie_average_is_mean : forall prec W (ops : list (oop R)), (0 < W)%nat -> (W <= 64)%nat ->
   let mult := o_multiplier ROps prec in
@@ -282,6 +306,8 @@ Definition C16_source_tie_axiom_free_group := (@C16_source_tie_average_members,
   @C16_source_tie_ring_members,
   @C16_source_tie_average_history,
   @C16_source_tie_variance_history,
+  @C16_source_tie_accesses_defined,
+  @C16_source_tie_variance_accesses_defined,
   @C16_source_tie_ring_history).
 Print Assumptions C16_source_tie_axiom_free_group.
 Definition C16_real_and_binary64_group := (@C16_source_tie_average_is_mean,
